@@ -24,7 +24,7 @@ SPEC = '''
 #define TOTAL(n, m, s, v) (DATAOFF(n, m, v) + (s) * (m))
 /* sizes for which nothing wraps */
 #define SZ_OK(n, m, s) ((n) <= ((uint64_t)1 << 40) && (m) <= ((uint64_t)1 << 40) && (s) <= 1024)
-static inline void gv_die(void) { __CPROVER_assume(0); }   /* GALOIS_DIE: terminates the program */
+static inline void gv_die(void) { __CPROVER_assert(0, "GALOIS_DIE reached although the preconditions describe a valid file / request"); __CPROVER_assume(0); }   /* GALOIS_DIE: terminates the program */
 /* host is little-endian (x86-64): convert_le*toh / convert_htole* are the identity (Endian.h units prove that for this configuration) */
 #define convert_le64toh(x) (x)
 #define convert_htole64(x) (x)
